@@ -119,6 +119,42 @@ def impl_delta(window_inc, new_iws):
     return {'outcome': 'ok', 'window': c.streams[1].outbound_flow_control_window}
 
 
+def impl_delta_state(state, window_inc, new_iws):
+    """the same on a stream in another state: half-closed (local / remote), reserved (local: server after push_stream; remote:
+    client after PUSH_PROMISE).  The peer raises the stream window by window_inc, then changes INITIAL_WINDOW_SIZE."""
+    import h2.connection, h2.config, h2.exceptions, hpack
+    S = wire.serialize
+    REQ = [(':method', 'GET'), (':path', '/'), (':scheme', 'https'), (':authority', 'x')]
+    enc = hpack.Encoder()
+    client = state in ('half_closed_local', 'reserved_remote')
+    c = h2.connection.H2Connection(config=h2.config.H2Configuration(client_side=client))
+    c.initiate_connection()
+    if client:
+        c.send_headers(1, REQ, end_stream=(state == 'half_closed_local'))
+        c.receive_data(S({'type': 'SETTINGS', 'sid': 0, 'settings': []}))
+        sid = 1
+        if state == 'reserved_remote':
+            c.receive_data(S({'type': 'PUSH_PROMISE', 'sid': 1, 'promised': 2, 'flags': {'END_HEADERS'}, 'block': enc.encode(REQ)}))
+            sid = 2
+    else:
+        c.receive_data(wire.PREFACE + S({'type': 'SETTINGS', 'sid': 0, 'settings': []}) +
+                       S({'type': 'HEADERS', 'sid': 1, 'flags': {'END_HEADERS'} | ({'END_STREAM'} if state == 'half_closed_remote' else set()), 'block': enc.encode(REQ)}))
+        sid = 1
+        if state == 'reserved_local':
+            c.push_stream(1, 2, REQ)
+            sid = 2
+    c.data_to_send()
+    try:
+        if window_inc:
+            c.receive_data(S({'type': 'WINDOW_UPDATE', 'sid': sid, 'increment': window_inc}))
+        c.data_to_send()
+        c.receive_data(S({'type': 'SETTINGS', 'sid': 0, 'settings': [(4, new_iws)]}))
+    except h2.exceptions.ProtocolError as e:
+        frames = wire.parse_all(c.data_to_send())
+        return {'outcome': 'ProtocolError', 'code': int(e.error_code), 'frames': [(f['type'], f.get('error_code')) for f in frames]}
+    return {'outcome': 'ok', 'window': c.streams[sid].outbound_flow_control_window}
+
+
 def expected_receive(code):
     if code == 0:
         return None
@@ -184,6 +220,20 @@ def check(run):
             if not same:
                 disagreements.append({'case': ['delta', inc, iws], 'what': 'INITIAL_WINDOW_SIZE delta reaction differs from guard_increment_window model',
                                       'impl': got, 'model': exp})
+        # ... and on streams in every state that has a send window (C06 F-C06-2: WINDOW_UPDATE is accepted on reserved streams)
+        for state in ('half_closed_local', 'half_closed_remote', 'reserved_local', 'reserved_remote'):
+            for inc, iws in [(M - 65535, 65536), (M - 65535, 65535), (0, M), (M - 65535 - 1, 65537), (1000, 0)]:
+                n_eval += 1
+                w = 65535 + inc
+                overflow = w + (iws - 65535) > M
+                got = impl_delta_state(state, inc, iws)
+                if overflow:
+                    same = got.get('outcome') == 'ProtocolError' and got['code'] == 3 and [f for f in got['frames'] if f[0] == 'GOAWAY'] == [('GOAWAY', 3)]
+                else:
+                    same = got == {'outcome': 'ok', 'window': w + iws - 65535}
+                if not same:
+                    disagreements.append({'case': ['delta', state, inc, iws], 'what': 'INITIAL_WINDOW_SIZE delta reaction on a %s stream differs from guard_increment_window model' % state,
+                                          'impl': got, 'model': 'FLOW_CONTROL_ERROR' if overflow else w + iws - 65535})
     cov = common.proof_coverage(r, extra_obligations=2)   # + geneq_validate_setting, geneq_guard_increment_window
     cov.update({
         'evaluations': n_eval,
